@@ -1,4 +1,4 @@
-import Tahoe.Storage.ImmServerLemmas
+import Tahoe.Storage.ImmConnLemmas
 /-!
 C22 — immutable share storage semantics (property theorems only; helper lemmas live in
 `Tahoe/Storage/ImmLemmas.lean` and `Tahoe/Storage/ImmServerLemmas.lean`).
@@ -194,6 +194,69 @@ example :
     allocatedSize s = 8 ∧ allocatedSize (closeOp s 0).1 = 4 ∧
     (disconnectOp (closeOp s 0).1 1).incoming = [] ∧ visible (disconnectOp (closeOp s 0).1 1) (0, 0) = true := by
   decide
+
+/-- both invariants (`WF`: containers / one writer per incoming file; `WFH`: distinct, never reused
+    handles, distinct registered handles) hold in every state reachable from an empty server by
+    direct calls, Foolscap allocations on connections and connection losses -/
+theorem reachable_invariants (ro : Bool) (rs : Nat) (ops : List FOp) (ok : ∀ o ∈ ops, FOpOk o) :
+    WF (frun (Server.empty ro rs) ops) ∧ WFH (frun (Server.empty ro rs) ops) :=
+  frun_inv _ (wf_empty ro rs) (wfh_empty ro rs) ops ok
+
+/-- two connections uploading to the same storage index, plus a direct upload; connection 1 has
+    closed one of its shares when it is lost -/
+def exFOps : List FOp :=
+  [.allocConn 1 0 [0, 1] 4 exRec 1000 [], .allocConn 2 0 [1, 2, 3] 6 exRec 1000 [],
+   .direct (.alloc 0 [4] 3 exRec 1000 []), .direct (.write 0 0 [7]), .direct (.close 0)]
+def exFS : Server := frun (Server.empty false 0) exFOps
+
+/-- **disconnect_leaves_no_upload**: in every reachable state, losing connection `c` removes exactly
+    the writers whose handle is registered on `c`: afterwards no handle of `c` is live, no incoming
+    file of `c` remains (every remaining incoming file was there before and belongs to a handle not
+    registered on `c`), `allocated_size()` is the sum of the reservations of the remaining (other
+    connections' and direct) writers, and no final share changed. -/
+theorem disconnect_leaves_no_upload (ro : Bool) (rs : Nat) (ops : List FOp) (ok : ∀ o ∈ ops, FOpOk o)
+    (c : Nat) :
+    let s := frun (Server.empty ro rs) ops
+    (disconnectOp s c).incoming =
+        s.incoming.filter (fun e => !((widsOfConn s c).contains e.2.1.wid)) ∧
+    (∀ wid ∈ widsOfConn s c, findWid wid (disconnectOp s c).incoming = none) ∧
+    (∀ k w f, getK k (disconnectOp s c).incoming = some (w, f) →
+        w.wid ∉ widsOfConn s c ∧ getK k s.incoming = some (w, f)) ∧
+    allocatedSize (disconnectOp s c) =
+        allocSum (s.incoming.filter (fun e => !((widsOfConn s c).contains e.2.1.wid))) ∧
+    (disconnectOp s c).final = s.final ∧ WF (disconnectOp s c) ∧ WFH (disconnectOp s c) := by
+  intro s
+  obtain ⟨hw, hh⟩ := reachable_invariants ro rs ops ok
+  have heq := foldl_abort_eq_filter (widsOfConn s c) s hw.incKeys hh.widNodup
+  have hinc : (disconnectOp s c).incoming =
+      s.incoming.filter (fun e => !((widsOfConn s c).contains e.2.1.wid)) := by
+    simp only [disconnectOp]; rw [heq]
+  refine ⟨hinc, ?_, ?_, ?_, ?_, (wf_foldl_abort _ s hw).1, wfh_foldl_abort _ s hh⟩
+  · intro wid hwid
+    rw [hinc]
+    apply findWid_eq_none
+    intro x hx hxw
+    simp only [List.mem_filter, Bool.not_eq_true', List.contains_eq_mem, decide_eq_false_iff_not] at hx
+    exact hx.2 (hxw ▸ hwid)
+  · intro k w f hk
+    rw [hinc, getK_filter _ _ hw.incKeys] at hk
+    split at hk
+    · rename_i v hv
+      split at hk
+      · rename_i hp
+        simp only [Option.some.injEq] at hk; subst hk
+        simp only [Bool.not_eq_true', List.contains_eq_mem, decide_eq_false_iff_not] at hp
+        exact ⟨hp, hv⟩
+      · simp at hk
+    · simp at hk
+  · simp only [allocatedSize, hinc, allocSum]
+  · exact (wf_foldl_abort _ s hw).2
+
+example : widsOfConn exFS 1 = [0, 1] ∧ widsOfConn exFS 2 = [2, 3] ∧ allocatedSize exFS = 4 + 6 + 6 + 3 ∧
+    ((disconnectOp exFS 1).incoming.map (·.1)) = [(0, 4), (0, 3), (0, 2)] ∧
+    allocatedSize (disconnectOp exFS 1) = 6 + 6 + 3 ∧ visible (disconnectOp exFS 1) (0, 0) = true ∧
+    readOp (disconnectOp exFS 1) (0, 0) 0 10 = some [7, 0, 0, 0] ∧
+    ((disconnectOp exFS 2).incoming.map (·.1)) = [(0, 4), (0, 1)] := by decide
 
 /-- the same for the 30-minute timeout: once the clock passes an upload's deadline the upload is
     gone (file and reservation), nothing becomes visible, and uploads whose deadline has not
